@@ -243,6 +243,73 @@ func extractStructure(e *env, f *facts) {
 	}
 	f.Bool["smapLocks"] = smapOK
 
+	// workerQueue: Push is exactly `if nextJob := c.getJob(job, 0); nextJob != nil { go c.do(nextJob) }` and do is
+	// exactly `for job != nil { job(); job = c.getJob(nil, -1) }`: every access to the queue state goes through getJob
+	pushFn, doFn := p.fn("workerQueue.Push"), p.fn("workerQueue.do")
+	f.Bool["pushIsGetJobThenSpawn"] = len(pushFn.Body.List) == 1 && stmtIs(p, pushFn.Body.List[0], "if nextJob := c.getJob(job, 0); nextJob != nil { go c.do(nextJob) }")
+	f.Bool["doLoopsGetJob"] = len(doFn.Body.List) == 1 && stmtIs(p, doFn.Body.List[0], "for job != nil { job()\n job = c.getJob(nil, -1) }")
+	gj := p.fn("workerQueue.getJob")
+	var gjs []string
+	for _, st := range gj.Body.List {
+		gjs = append(gjs, strings.Join(strings.Fields(src(p, st)), ""))
+	}
+	f.Bool["getJobBodyAsModelled"] = strings.Join(gjs, ";") == "c.mu.Lock();deferc.mu.Unlock();ifnewJob!=nil{c.q.PushBack(newJob)};c.curConcurrency+=delta;ifc.curConcurrency>=c.maxConcurrency{returnnil};varjob=c.q.PopFront();ifjob==nil{returnnil};c.curConcurrency++;returnjob"
+	// no other function touches the queue fields
+	touch := []string{}
+	for name, fn := range p.funcs {
+		ast.Inspect(fn.Body, func(n ast.Node) bool {
+			if se, ok := n.(*ast.SelectorExpr); ok && (se.Sel.Name == "curConcurrency" || (se.Sel.Name == "q" && src(p, se.X) == "c")) {
+				touch = append(touch, name)
+			}
+			return true
+		})
+	}
+	sortStrings(touch)
+	uniq := []string{}
+	for i, t := range touch {
+		if i == 0 || touch[i-1] != t {
+			uniq = append(uniq, t)
+		}
+	}
+	f.StrList["queueStateTouchedBy"] = uniq
+
+	// doWriteFile: inside the per-frame callback the closed test follows genFrame and precedes the transport write
+	fw := p.fn("Conn.doWriteFile")
+	perFrame := false
+	ast.Inspect(fw.Body, func(n ast.Node) bool {
+		if fl, ok := n.(*ast.FuncLit); ok {
+			idxCheck, idxWrite := -1, -1
+			for i, st := range fl.Body.List {
+				t := strings.Join(strings.Fields(src(p, st)), "")
+				if t == "ifc.isClosed(){returnErrConnClosed}" {
+					idxCheck = i
+				}
+				if strings.Contains(t, "internal.WriteN(c.conn") {
+					idxWrite = i
+				}
+			}
+			if idxCheck >= 0 && idxWrite > idxCheck {
+				perFrame = true
+			}
+		}
+		return true
+	})
+	f.Bool["fileClosedCheckPerFrameUnderLock"] = perFrame && f.Bool["doWriteFileLocks"]
+	// ConcurrentMap: every method that touches a shard does so between b.Lock() and b.Unlock()
+	cmOK := true
+	for _, m := range []string{"Len", "Load", "Delete", "Store", "Range"} {
+		fn, ok := p.funcs["ConcurrentMap."+m]
+		if !ok {
+			cmOK = false
+			continue
+		}
+		t := strings.Join(strings.Fields(src(p, fn.Body)), "")
+		if !strings.Contains(t, "b.Lock()") || !strings.Contains(t, "b.Unlock()") || strings.Index(t, "b.Lock()") > strings.Index(t, "b.Unlock()") {
+			cmOK = false
+		}
+	}
+	f.Bool["cmapShardLocks"] = cmOK
+
 	// doWrite: the closed test is the first statement after the lock pair and exempts only the Close opcode
 	dw := p.fn("Conn.doWrite")
 	f.Bool["doWriteClosedCheckUnderLock"] = len(dw.Body.List) > 2 && stmtIs(p, dw.Body.List[2], "if opcode != OpcodeCloseConnection && c.isClosed() { return ErrConnClosed }")
